@@ -145,4 +145,141 @@ theorem term_hasDerivAt (f : Feat ℝ) (q : Pix ℝ) (h : Admissible g fn f q) (
     rw [List.getD_append_right _ _ _ _ (by simp [hdl, hθ])]
     simp [hdl, hθ, fnDeriv]
 
+
+/-! ### one pixel of the residual -/
+
+/-- what feature `f` subtracts from `diff[q]` -/
+noncomputable def contrib (act : ℕ → ℕ → Bool) (f : Feat ℝ) (q : Pix ℝ) : ℝ :=
+  if act f.id q.id then term g fn nd f q else 0
+
+theorem diffAt_eq (act : ℕ → ℕ → Bool) (feats : List (Feat ℝ)) (q : Pix ℝ) :
+    diffAt g fn nd act feats q =
+      q.val - bgOf feats - (feats.map (fun f => contrib g fn nd act f q)).sum := by
+  have h : ∀ (init : ℝ) (l : List (Feat ℝ)),
+      l.foldl (fun d f => if act f.id q.id then d - term g fn nd f q else d) init =
+        init - (l.map (fun f => contrib g fn nd act f q)).sum := by
+    intro init l
+    induction l generalizing init with
+    | nil => simp
+    | cons a t ih =>
+      simp only [List.foldl_cons, List.map_cons, List.sum_cons, ih, contrib]
+      split_ifs <;> ring
+  exact h _ _
+
+theorem bgOf_setP (pre post : List (Feat ℝ)) (f : Feat ℝ) (k : ℕ) (u : ℝ) :
+    bgOf (pre ++ f.setP k u :: post) = bgOf (pre ++ f :: post) := by
+  cases pre <;> simp [bgOf]
+
+theorem hasDerivAt_list_sum {ι : Type} (l : List ι) (F : ι → ℝ → ℝ) (F' : ι → ℝ) (x : ℝ)
+    (h : ∀ i ∈ l, HasDerivAt (F i) (F' i) x) :
+    HasDerivAt (fun u => (l.map (fun i => F i u)).sum) ((l.map F').sum) x := by
+  induction l with
+  | nil => simpa using hasDerivAt_const x (0 : ℝ)
+  | cons a t ih =>
+    simp only [List.map_cons, List.sum_cons]
+    exact (h a (by simp)).fun_add (ih (fun i hi => h i (by simp [hi])))
+
+/-- derivative of `diff[q]` in parameter `k` of feature `f` of the cluster -/
+theorem diffAt_hasDerivAt (act : ℕ → ℕ → Bool) (pre post : List (Feat ℝ)) (f : Feat ℝ)
+    (q : Pix ℝ) (k : ℕ) (hk : k < 1 + g.nShape + fn.nParams)
+    (hadm : act f.id q.id = true → Admissible g fn f q) :
+    HasDerivAt (fun u => diffAt g fn nd act (pre ++ f.setP k u :: post) q)
+      (if act f.id q.id then -((dterm g fn nd f q).getD k 0) else 0) (f.getP k) := by
+  simp only [diffAt_eq, bgOf_setP, List.map_append, List.sum_append, List.map_cons, List.sum_cons,
+    contrib, Feat.setP_id]
+  by_cases ha : act f.id q.id = true
+  · simp only [ha, if_true]
+    have hT := term_hasDerivAt g fn nd f q (hadm ha) k hk
+    exact ((hT.add_const _).const_add _).const_sub _
+  · have hf : act f.id q.id = false := by simpa using ha
+    simp only [hf, Bool.false_eq_true, if_false]
+    exact hasDerivAt_const (𝕜 := ℝ) (F := ℝ) _ _
+
+/-! ### one cluster -/
+
+theorem gradRow_getD (act : ℕ → ℕ → Bool) (L : ℝ) (feats : List (Feat ℝ)) (pixels : List (Pix ℝ))
+    (f : Feat ℝ) (k : ℕ) (hk : k < 1 + f.θ.length + f.fp.length) :
+    (gradRow g fn nd act L feats pixels f).getD k 0 =
+      (pixels.map (fun q =>
+        if act f.id q.id then -2 * diffAt g fn nd act feats q * (dterm g fn nd f q).getD k 0
+        else 0)).sum / L := by
+  simp only [gradRow, List.getD_eq_getElem?_getD, List.getElem?_map, lsum_real, two_real, zero_real]
+  rw [List.getElem?_range hk]
+  simp
+
+/-- **residual_grad (cluster)**: entry `k` of the row the code writes into `result[i, 1:]` is the
+partial derivative of the cluster's residual in parameter `k` of feature `i` -/
+theorem clusterRes_hasDerivAt (act : ℕ → ℕ → Bool) (L : ℝ) (pre post : List (Feat ℝ)) (f : Feat ℝ)
+    (pixels : List (Pix ℝ)) (k : ℕ) (hθ : f.θ.length = g.nShape) (hfp : f.fp.length = fn.nParams)
+    (hk : k < 1 + g.nShape + fn.nParams)
+    (hadm : ∀ q ∈ pixels, act f.id q.id = true → Admissible g fn f q) :
+    HasDerivAt (fun u => clusterRes g fn nd act L (pre ++ f.setP k u :: post) pixels)
+      ((gradRow g fn nd act L (pre ++ f :: post) pixels f).getD k 0) (f.getP k) := by
+  rw [gradRow_getD g fn nd act L _ pixels f k (by omega)]
+  simp only [clusterRes, lsum_real, sq]
+  have hq : ∀ q ∈ pixels, HasDerivAt
+      (fun u => diffAt g fn nd act (pre ++ f.setP k u :: post) q *
+        diffAt g fn nd act (pre ++ f.setP k u :: post) q)
+      (if act f.id q.id then
+        -2 * diffAt g fn nd act (pre ++ f :: post) q * (dterm g fn nd f q).getD k 0 else 0)
+      (f.getP k) := by
+    intro q hq
+    have hd := diffAt_hasDerivAt g fn nd act pre post f q k hk (hadm q hq)
+    have := hd.fun_mul hd
+    simp only [Feat.setP_getP] at this
+    refine this.congr_deriv ?_
+    split_ifs <;> ring
+  exact (hasDerivAt_list_sum pixels _ _ _ hq).div_const L
+
+/-- all rows of the cluster share one background value `b` -/
+def setBg (feats : List (Feat ℝ)) (b : ℝ) : List (Feat ℝ) := feats.map (fun f => { f with bg := b })
+
+theorem diffAt_setBg (act : ℕ → ℕ → Bool) (feats : List (Feat ℝ)) (hne : feats ≠ []) (q : Pix ℝ)
+    (b : ℝ) : diffAt g fn nd act (setBg feats b) q =
+      q.val - b - (feats.map (fun f => contrib g fn nd act f q)).sum := by
+  rw [diffAt_eq]
+  congr 1
+  · cases feats with
+    | nil => exact absurd rfl hne
+    | cons a t => simp [setBg, bgOf]
+  · simp [setBg, List.map_map, Function.comp_def, contrib, term]
+
+/-- **residual_grad (background)**: the sum over the rows of the cluster of `result[indices, 0]`
+(what `operation=np.sum` packs for a background shared by the cluster) is the derivative of the
+cluster's residual in the shared background -/
+theorem clusterRes_hasDerivAt_bg (act : ℕ → ℕ → Bool) (L : ℝ) (feats : List (Feat ℝ))
+    (hne : feats ≠ []) (pixels : List (Pix ℝ)) (b0 : ℝ) :
+    HasDerivAt (fun b => clusterRes g fn nd act L (setBg feats b) pixels)
+      ((feats.length : ℝ) * gradBg g fn nd act L (setBg feats b0) pixels) b0 := by
+  have hn : ((feats.length : ℕ) : ℝ) ≠ 0 := by
+    simpa using hne
+  simp only [clusterRes, gradBg, lsum_real, sq, two_real, diffAt_setBg g fn nd act feats hne]
+  have hlen : (setBg feats b0).length = feats.length := by simp [setBg]
+  rw [hlen, ← mul_div_assoc, mul_div_mul_left _ _ hn]
+  have hq : ∀ q ∈ pixels, HasDerivAt
+      (fun b => (q.val - b - (feats.map (fun f => contrib g fn nd act f q)).sum) *
+        (q.val - b - (feats.map (fun f => contrib g fn nd act f q)).sum))
+      (-2 * (q.val - b0 - (feats.map (fun f => contrib g fn nd act f q)).sum)) b0 := by
+    intro q _
+    have h1 : HasDerivAt (fun b : ℝ => q.val - b -
+        (feats.map (fun f => contrib g fn nd act f q)).sum) (-1) b0 := by
+      simpa using ((hasDerivAt_id b0).const_sub q.val).sub_const
+        ((feats.map (fun f => contrib g fn nd act f q)).sum)
+    refine (h1.fun_mul h1).congr_deriv ?_
+    ring
+  exact (hasDerivAt_list_sum pixels _ _ _ hq).div_const L
+
+/-! ### the whole objective -/
+
+theorem gradRows_getD (c : Cluster ℝ) (pre post : List (Feat ℝ)) (f : Feat ℝ)
+    (hc : c.feats = pre ++ f :: post) :
+    (gradRows g fn nd c).getD pre.length [] =
+      gradBg g fn nd c.act c.L c.feats c.pixels :: gradRow g fn nd c.act c.L c.feats c.pixels f := by
+  simp [gradRows, hc, List.getD_eq_getElem?_getD]
+
+theorem gradRows_bg_sum (c : Cluster ℝ) :
+    ((gradRows g fn nd c).map (fun row => row.headD 0)).sum =
+      (c.feats.length : ℝ) * gradBg g fn nd c.act c.L c.feats c.pixels := by
+  simp [gradRows, List.map_map, Function.comp_def]
+
 end TrackpyV.Lsq
